@@ -54,12 +54,10 @@ def scripted_job(job, beh):
             n["script"] = decs.get(n["name"], []) + n["script"][-1:]
             n["pure"] = False
         n["mayfail"] = False
-    if beh["status"] == "failed" and beh["err"]["kind"] == "body" and "/" not in beh["err"]["path"]:
-        name = beh["err"]["path"]
-        idx = max(c["idx"] for c in beh["calls"] if c["path"] == name)
+    for name, idx in beh.get("inj", []):          # every failure TLC injected (several nodes of one async step may fail)
         for n in j["prog"]["nodes"]:
             if n["name"] == name:
-                n["fail_at"] = [idx]
+                n["fail_at"] = sorted(set(n["fail_at"]) | {idx})
     return j
 
 
